@@ -100,6 +100,26 @@ def main() -> int:
     c = copy.deepcopy(lrec)
     c['stored'][1] = '"'
     expect('TraceLexis: one stored character changed', vl(c), True)
+    # --- TraceContainerInv: calls recorded at the container methods (run-time recorder) -----------------------------------
+    from . import container_trace as ct
+    core.setup_env()
+    from pydbml import PyDBML
+    ct.install()
+    ct.reset()
+    PyDBML("Table a {\n  id int [pk]\n}\nTable b {\n  a_id int [ref: > a.id]\n}\nEnum e {\n  x\n}\n")
+    evs = [{'tid': i + 1, 'call': e['call'], 'outcome': e['outcome'], 'pre': e['pre'], 'post': e['post']} for i, e in enumerate(ct.EVENTS)]
+
+    def vi(rs):
+        return [x for x in core.validate('TraceContainerInv', 'TraceContainerInv.cfg', rs)[0].values() if x]
+    expect('TraceContainerInv: recorded parser schedule (%d calls)' % len(evs), vi(evs), False)
+    c = copy.deepcopy(evs)
+    add = next(e for e in c if e['call'] == 'Database.add' and len(e['post']['tables']) > len(e['pre']['tables']))
+    add['post']['tdict'] = add['pre']['tdict']                  # the table is listed but cannot be looked up
+    expect('TraceContainerInv: table listed but missing from the lookup dictionary', vi(c), True)
+    c = copy.deepcopy(evs)
+    add = next(e for e in c if e['call'] == 'Database.add' and len(e['post']['tables']) > len(e['pre']['tables']))
+    add['outcome'] = 'DatabaseValidationError'                  # a call that changed the container is reported as refused
+    expect('TraceContainerInv: a refused call that changed the container', vi(c), True)
     print('selftest %s' % ('passed' if ok else 'FAILED'))
     return 0 if ok else 1
 
